@@ -87,6 +87,17 @@ pub struct KnownFinding {
     pub what: String,
 }
 
+/// Is `key` listed with status "known" (i.e. unfixed) for `property` in known_findings.json?
+/// Checks use this to exclude a known failing shape from the bulk search only while it is listed:
+/// once the entry is "fixed" (or removed) the shape is searched again like any other.
+pub fn is_listed_known(property: &str, key: &str) -> bool {
+    static LIST: std::sync::OnceLock<Vec<KnownFinding>> = std::sync::OnceLock::new();
+    let list = LIST.get_or_init(|| {
+        std::fs::read(verif_dir().join("known_findings.json")).ok().and_then(|d| serde_json::from_slice(&d).ok()).unwrap_or_default()
+    });
+    list.iter().any(|k| k.property == property && k.key == key && k.status == "known")
+}
+
 pub struct Ctx {
     pub id: String,
     pub tier: Tier,
